@@ -239,8 +239,8 @@ inductive Ev
   | stanza (st : Stanza)
   | closeStream
   | deliver (i : Nat)
-  /-- the element `e`, arriving in the same TCP read as the previous element of this connection: `XmppSocket::processData`
-  hands every element of a read to `handleStanza`, also those that follow one on which the server closed the stream -/
+  /-- the element `e`, arriving in the same TCP read as the previous element of this connection (several elements in one
+  write).  `XmppSocket::processData` hands every element of a read to `handleStanza`. -/
   | sameRead (e : Ev)
   deriving DecidableEq, Repr
 
@@ -446,23 +446,11 @@ def connStep (cfg : Cfg) (fresh : List Char) (c : Conn) (ev : Ev) : CRes :=
   | .stanza st => gate c (clientGate c (clientStanza cfg c st))
   | .sameRead _ => idle c
 
-/-- on a socket the server has already closed nothing is written any more and `disconnected()` is not emitted twice -/
-def drainKeep : COut → Bool
-  | .send _ => false
-  | .closed => false
-  | _ => true
-
-/-- one element of a connection.  An element that follows, in the SAME read, one on which the server closed the stream
-is still processed (state changes, `connected()`, `elementReceived()`), only nothing can be written any more; the
-object is deleted, with its outstanding replies, when the read is over. -/
+/-- one element of a connection.  An element that arrives in the same read as the previous one is an element like any
+other: since repo commit 1c23dbf `handleStanza` ignores whatever follows, in the same read, an element on which the server
+closed the stream (`connStep` does nothing on a closed connection). -/
 def connStepAny (cfg : Cfg) (fresh : List Char) (c : Conn) (ev : Ev) : CRes :=
-  match ev with
-  | .sameRead e =>
-    if c.closed then
-      let r := connStep cfg fresh { c with closed := false } e.strip
-      { conn := { r.conn with closed := true, pending := [] }, outs := r.outs.filter drainKeep, used := r.used }
-    else connStep cfg fresh c e.strip
-  | _ => connStep cfg fresh c ev
+  connStep cfg fresh c ev.strip
 
 /-! ### the server: routing tables and the default stanza handler (no extensions, no S2S) -/
 
@@ -514,12 +502,9 @@ def route (cfg : Cfg) (s : Server) (to : List Char) : Option (List Nat) :=
 /-- sockets that are still open among `found` -/
 def alive (s : Server) (found : List Nat) : List Nat := found.filter fun d => !(s.conns d).closed
 
-/-- `sendData` to every connection found.  A found connection that is already closed means a routing entry outlived
-its connection: the C++ then calls `sendData` on a deleted object (`ub`).  Since repo commit c3084c3 this needs a bind
-processed AFTER the server closed the stream, in the same read (`Ev.sameRead`); `tables_reference_open_connections_partial`
-shows it cannot happen otherwise. -/
-def writeTo (s : Server) (src : Nat) (found : List Nat) (mk : Nat → Out) : List Out :=
-  (if found.any (fun d => (s.conns d).closed) then [.ub src] else []) ++ (alive s found).map mk
+/-- `sendData` to every connection found (on a closed socket it writes nothing; `tables_reference_open_connections`
+shows that no closed connection is ever found) -/
+def writeTo (s : Server) (found : List Nat) (mk : Nat → Out) : List Out := (alive s found).map mk
 
 /-- `handleStanza(server, element)` with no extension claiming it -/
 def handleStanza (cfg : Cfg) (s : Server) (src : Nat) (st : Stanza) : List Out :=
@@ -528,18 +513,18 @@ def handleStanza (cfg : Cfg) (s : Server) (src : Nat) (st : Stanza) : List Out :
     | .iq t =>
       if t = .get ∨ t = .set then
         match route cfg s st.sender with
-        | some found => writeTo s src found fun d => .reply src d (.iqError st.id cfg.domain st.sender .featureNotImplemented)
+        | some found => writeTo s found fun d => .reply src d (.iqError st.id cfg.domain st.sender .featureNotImplemented)
         | none => []
       else []
     | _ => []
   else
     match route cfg s st.to with
-    | some found => writeTo s src found fun d => .deliver src d st
+    | some found => writeTo s found fun d => .deliver src d st
     | none =>
       match st.kind with
       | .iq _ =>
         match route cfg s st.sender with
-        | some found => writeTo s src found fun d => .reply src d (.iqError st.id st.to st.sender .serviceUnavailable)
+        | some found => writeTo s found fun d => .reply src d (.iqError st.id st.to st.sender .serviceUnavailable)
         | none => []
       | _ => []
 
@@ -560,7 +545,6 @@ def kickOld (s0 : Server) (c : Nat) (jid : List Char) : Server × List Out :=
       let s1 := setConn s0 o { s0.conns o with closed := true, pending := [] }
       let r := unregister s1 o
       (r.1, [.send o (.streamError .conflict), .send o .streamEnd] ++ r.2)
-    else if o ≠ c then (s0, [.ub c])   -- `old->sendData(...)` on the deleted owner of a stale entry
     else (s0, [])
   | none => (s0, [])
 
